@@ -203,8 +203,12 @@ func wellFormed6(r *rand.Rand, ownDUID dhcpv6.DUID) ([]byte, string) {
 	npd := r.Intn(3)
 	for i := 0; i < npd; i++ {
 		pd := &dhcpv6.OptIAPD{IaId: [4]byte{1, 0, 0, byte(i)}}
-		switch r.Intn(6) {
+		switch r.Intn(8) {
 		case 0:
+		case 6: // a prefix-length byte above 128 (no mask of that length exists), address inside the configured pool
+			pd.Options.Add(&rawIAPrefix{pref: 100, valid: 200, plen: byte(129 + r.Intn(127)), ip: net.ParseIP(fmt.Sprintf("2001:db8:0:fff%x::", 12+r.Intn(4)))})
+		case 7: // an address inside the pool with a length shorter than the pool's own
+			pd.Options.Add(&dhcpv6.OptIAPrefix{Prefix: &net.IPNet{IP: net.ParseIP(fmt.Sprintf("2001:db8:0:fff%x::%x", 12+r.Intn(4), r.Intn(3))), Mask: net.CIDRMask(1+r.Intn(61), 128)}})
 		case 1: // prefix-length 0: parses to a nil prefix
 			pd.Options.Add(&dhcpv6.OptIAPrefix{Prefix: &net.IPNet{IP: net.IPv6zero, Mask: net.CIDRMask(0, 128)}})
 		case 2:
@@ -878,6 +882,53 @@ func runServerConc(t *Trace, seed int64, rounds int) error {
 		wg.Wait()
 		close(stop)
 		fw.Wait()
+		if atomic.LoadInt32(&wedged) != 0 {
+			break
+		}
+		// the refresh itself: well-formed updates of each file, ONE write at a time (one change notification each),
+		// must eventually be what the instance of THAT protocol serves (C10's autorefresh sentence, after concurrent load)
+		for step := 0; step < 6; step++ {
+			proto := []int{4, 6}[step%2]
+			mac := net.HardwareAddr{2, 0, 0, 2, byte(step), byte(round)}
+			want := net.IPv4(10, 0, byte(2+step), byte(round+1)).To4()
+			name := "leases4.txt"
+			if proto == 6 {
+				want = net.ParseIP(fmt.Sprintf("2001:db8::%x:%x", 2+step, round+1))
+				name = "leases6.txt"
+			}
+			if f, err := os.OpenFile(name, os.O_WRONLY|os.O_APPEND, 0); err == nil {
+				f.WriteString(fmt.Sprintf("%s %s\n", mac, want))
+				f.Close()
+			}
+			ok := false
+			t0 := time.Now()
+			for time.Since(t0) < 20*time.Second && !ok {
+				if proto == 4 {
+					d, _ := dhcpv4.NewDiscovery(mac)
+					fr := feed(l4, l6, 4, d.ToBytes(), 7, &net.UDPAddr{IP: net.IPv4(10, 0, 0, 9), Port: 68})
+					ok = len(fr.sent4) == 1 && fr.sent4[0].Resp.YourIPAddr.Equal(want)
+				} else {
+					m, _ := dhcpv6.NewSolicit(mac)
+					fr := feed(l4, l6, 6, m.ToBytes(), 7, &net.UDPAddr{IP: net.ParseIP("fe80::99"), Port: 546})
+					if len(fr.sent6) == 1 {
+						if rm, err := fr.sent6[0].Resp.GetInnerMessage(); err == nil {
+							if na := rm.Options.OneIANA(); na != nil {
+								for _, a := range na.Options.Addresses() {
+									ok = ok || a.IPv6Addr.Equal(want)
+								}
+							}
+						}
+					}
+				}
+				if !ok {
+					time.Sleep(50 * time.Millisecond)
+				}
+			}
+			t.Emit(Ev{"fam": "server", "ev": "refreshed", "proto": proto, "ok": ok, "waited_ms": int(time.Since(t0) / time.Millisecond)})
+			if !ok {
+				return nil // the instance serves a stale table: nothing more to learn from it
+			}
+		}
 	}
 	return nil
 }
